@@ -199,7 +199,7 @@ func genFee(t *rapid.T, label string) string {
 
 var defaultWeights = map[string]int{
 	"send": 30, "cancel": 7, "reqbatch": 7, "deposit": 4, "transfer": 6, "exec": 4,
-	"tick": 2, "hb": 1, "relay": 5, "block": 24, "burst": 0, "xexec": 14, "xtick": 7, "send2": 4, "hostile": 0, "oprice": 0, "oholders": 0, "sign": 0, "byz": 0, "xround": 0,
+	"tick": 2, "hb": 1, "relay": 5, "block": 24, "burst": 0, "xexec": 14, "xtick": 7, "send2": 4, "hostile": 0, "oprice": 0, "oholders": 0, "sign": 0, "byz": 0, "xround": 0, "xlag": 0,
 }
 
 // GenOps draws the operation list for a configuration.
@@ -217,7 +217,7 @@ func GenOps(t *rapid.T, cfg sim.Config, o GenOpts) []Op {
 	if o.Bursts && w["burst"] == 0 {
 		w["burst"] = 2
 	}
-	kinds := []string{"send", "cancel", "reqbatch", "deposit", "transfer", "exec", "tick", "hb", "relay", "block", "burst", "xexec", "xtick", "send2", "hostile", "oprice", "oholders", "sign", "byz", "xround"}
+	kinds := []string{"send", "cancel", "reqbatch", "deposit", "transfer", "exec", "tick", "hb", "relay", "block", "burst", "xexec", "xtick", "send2", "hostile", "oprice", "oholders", "sign", "byz", "xround", "xlag"}
 	total := 0
 	for _, k := range kinds {
 		total += w[k]
@@ -323,6 +323,16 @@ func GenOps(t *rapid.T, cfg sim.Config, o GenOpts) []Op {
 			op.R = rapid.IntRange(0, 7).Draw(t, "pick")
 			op.A = genFee(t, "feepaid")
 			op.T = rapid.SampledFrom([]int64{1, 5, 5, 21}).Draw(t, "dt")
+		case "xlag":
+			// macro: quiet stretch, batch, fresh observation, second batch of the token, clock moves (see interp)
+			op.U = rapid.IntRange(0, 2).Draw(t, "u")
+			op.C = chainGen.Draw(t, "c")
+			op.D = denomGen.Draw(t, "d")
+			op.A = genAmount(t, "amt", o.BigAmounts)
+			op.F = genFee(t, "fee")
+			op.R = rapid.IntRange(0, 3).Draw(t, "r")
+			op.N = rapid.SampledFrom([]int{3, 6, 9, 12, 20, 30, 45}).Draw(t, "quiet")
+			op.C2 = rapid.IntRange(1, 20).Draw(t, "ticks")
 		case "xround":
 			// macro: N accounts of chain C send to another external chain, batch, execution, observation
 			op.C = chainGen.Draw(t, "c")
